@@ -271,6 +271,14 @@ type job struct {
 	replay  string
 	out     string
 	extra   []string
+	timeout time.Duration // overrides the watchdog
+}
+
+func (j *job) watchdog() time.Duration {
+	if j.timeout > 0 {
+		return j.timeout
+	}
+	return j.budget + j.budget/2 + 150*time.Second
 }
 
 func (sc *scratch) exec(j *job) error {
@@ -299,10 +307,48 @@ func (sc *scratch) exec(j *job) error {
 			return fmt.Errorf("%v\n%s", err, tail(outb.String(), 4000))
 		}
 		return nil
-	case <-time.After(j.budget + j.budget/2 + 150*time.Second):
+	case <-time.After(j.watchdog()):
 		cmd.Process.Kill()
 		return errors.New("watchdog: worker exceeded its wall budget")
 	}
+}
+
+// attributeAbort: a worker died with a Go runtime "fatal error" (not recoverable inside the process). The run in
+// progress is read from the worker's progress file and re-executed alone in a fresh process; if it aborts again the
+// abort belongs to that run (a violation with a seed/run replay file), otherwise it stays an infrastructure error.
+func (sc *scratch) attributeAbort(sub *Sub, j *job, werr error) *abort {
+	msg := werr.Error()
+	line := ""
+	if i := strings.Index(msg, "fatal error:"); i >= 0 {
+		line = msg[i:]
+		if k := strings.IndexByte(line, '\n'); k >= 0 {
+			line = line[:k]
+		}
+	} else if strings.HasPrefix(msg, "watchdog:") {
+		line = "stall: one run kept a worker busy beyond the watchdog"
+	} else if strings.HasPrefix(msg, "signal: killed") {
+		line = "killed: the worker was killed by the operating system (out of memory) during one run"
+	} else {
+		return nil
+	}
+	b, err := os.ReadFile(j.out + ".progress")
+	if err != nil || len(b) < 8 {
+		return nil
+	}
+	var run uint64
+	for k := 0; k < 8; k++ {
+		run |= uint64(b[k]) << (8 * k)
+	}
+	rp := &simrt.Replay{Harness: sub.Pkg + "/" + sub.Harness, Config: sub.Config, Tier: currentTier, Seed: j.seed, Run: run, FromSeed: true}
+	path := filepath.Join(sc.dir, "out", fmt.Sprintf("abort-%d-%d.json", j.seed, run))
+	writeJSON(path, rp)
+	out := path + ".out"
+	// a single run takes milliseconds; alone in a fresh process it gets 90 s
+	rj := &job{sub: sub, mode: "replay", replay: path, out: out, budget: 60 * time.Second, timeout: 90 * time.Second}
+	if err2 := sc.exec(rj); err2 != nil && (strings.Contains(err2.Error(), "fatal error:") || strings.HasPrefix(err2.Error(), "watchdog:") || strings.HasPrefix(err2.Error(), "signal: killed")) {
+		return &abort{seed: j.seed, run: run, message: line}
+	}
+	return nil
 }
 
 func tail(s string, n int) string {
@@ -312,7 +358,14 @@ func tail(s string, n int) string {
 	return s
 }
 
+// abort: the code under test killed a worker process with an unrecoverable runtime error during one run.
+type abort struct {
+	seed, run uint64
+	message   string
+}
+
 type subResult struct {
+	abort    *abort
 	sub      *Sub
 	outs     []*simrt.WorkerOut
 	runs     uint64
@@ -336,6 +389,7 @@ func (sc *scratch) search(sub *Sub, seed uint64, workers int, budget time.Durati
 	var wg sync.WaitGroup
 	outs := make([]*simrt.WorkerOut, workers)
 	errs := make([]error, workers)
+	aborts := make([]*abort, workers)
 	t0 := time.Now()
 	for w := 0; w < workers; w++ {
 		wg.Add(1)
@@ -349,6 +403,10 @@ func (sc *scratch) search(sub *Sub, seed uint64, workers int, budget time.Durati
 				out := fmt.Sprintf("%s/out/%s-%s-%d-%d.json", sc.dir, sub.Pkg, sub.Harness, w, round)
 				j := &job{sub: sub, mode: "search", seed: seed + uint64(round)*7919, worker: w, workers: workers, budget: time.Until(deadline), out: out}
 				if err := sc.exec(j); err != nil {
+					if ab := sc.attributeAbort(sub, j, err); ab != nil {
+						aborts[w] = ab
+						break
+					}
 					errs[w] = err
 					return
 				}
@@ -384,6 +442,18 @@ func (sc *scratch) search(sub *Sub, seed uint64, workers int, budget time.Durati
 		}
 	}
 	r := &subResult{sub: sub, outs: outs, probes: map[string]int{}, faults: map[string]int{}, failures: map[string]*simrt.FailureRecord{}}
+	for _, ab := range aborts {
+		if ab != nil && r.abort == nil {
+			r.abort = ab
+		}
+	}
+	var live []*simrt.WorkerOut
+	for _, o := range outs {
+		if o != nil {
+			live = append(live, o)
+		}
+	}
+	outs = live
 	bits := 0
 	for _, o := range outs {
 		if o.HashBits > bits {
@@ -628,6 +698,21 @@ func check(id, tier string, budgetOverride int, keep bool) int {
 		b := total * time.Duration(max(1, sub.Weight)) / time.Duration(wsum)
 		r := sc.search(sub, seed, workers, b)
 		results = append(results, r)
+		if r.abort != nil {
+			os.MkdirAll(filepath.Join(verifDir, "replays"), 0o755)
+			sig := "process-abort|" + sanitizeSig(r.abort.message)
+			name := fmt.Sprintf("%s-%s-%s-abort-%d-%d.json", p.ID, sub.Pkg, sub.Harness, r.abort.seed, r.abort.run)
+			path := filepath.Join(verifDir, "replays", name)
+			writeJSON(path, &simrt.Replay{Property: p.ID, Harness: sub.Pkg + "/" + sub.Harness, Config: sub.Config, Tier: currentTier, Seed: r.abort.seed, Run: r.abort.run, FromSeed: true,
+				Signature: sig, Detail: "the worker process was aborted by the Go runtime during this run (not recoverable in-process): " + r.abort.message + "; confirmed by re-running the run alone in a fresh process"})
+			if kf := known.match(id, sig); kf != nil {
+				knownLines = append(knownLines, fmt.Sprintf("KNOWN-FINDING: property=%s %s [%s/%s signature=%q]", id, kf.What, sub.Pkg, sub.Harness, sig))
+			} else {
+				violations++
+				violLines = append(violLines, fmt.Sprintf("VIOLATION property=%s replay=%s", id, path))
+				fmt.Fprintf(os.Stderr, "violation in %s/%s: %s\n  seed=%d run=%d\n", sub.Pkg, sub.Harness, sig, r.abort.seed, r.abort.run)
+			}
+		}
 		sigs := make([]string, 0, len(r.failures))
 		for sig := range r.failures {
 			sigs = append(sigs, sig)
@@ -825,4 +910,19 @@ func determinismOf(sc *scratch, p *Prop, procsList []int, reps int, runs uint64)
 		}
 	}
 	return bad
+}
+
+func sanitizeSig(msg string) string {
+	var b strings.Builder
+	for _, r := range msg {
+		if r >= '0' && r <= '9' {
+			continue
+		}
+		b.WriteRune(r)
+	}
+	out := strings.TrimSpace(b.String())
+	if len(out) > 80 {
+		out = out[:80]
+	}
+	return out
 }
